@@ -1,18 +1,25 @@
-"""deterministic pseudo-random evaluation of z3 real terms at a fixed rational point.
-Used only to *choose* canonical orientations / merge candidates; every use is either an
-identity-preserving rewrite (exp(-t) = 1/exp(t)) or is confirmed symbolically."""
+"""deterministic pseudo-random evaluation of z3 real terms in the prime field F_P (P = 2^61-1).
+Field arithmetic keeps algebraic relations (sqrt(u)^2 = u, |x|^2 = x^2) exact, so equal rational
+functions always get equal fingerprints.  Used only as a *filter* / to choose canonical
+orientations; every merge is confirmed symbolically (ratform), every orientation choice is an
+identity-preserving rewrite.  `fingerprint(e)` returns an int in [0, P) or None."""
 import hashlib
-from fractions import Fraction
 
 import z3
 
+P = (1 << 61) - 1
 _memo = {}
+ATOM_FP = {}  # id of an abstraction atom -> (atom, fingerprint of the application it stands for)
 
 
 def _h(*parts):
     d = hashlib.sha256("|".join(str(p) for p in parts).encode()).digest()
-    n = int.from_bytes(d[:6], "big")
-    return Fraction(n % 9973 + 1, 1009) - Fraction(9973, 2018) + Fraction(1, 7919)  # roughly in (-5, 5), never 0
+    return int.from_bytes(d[:8], "big") % (P - 3) + 2
+
+
+def neg_oriented(v):
+    """pseudo-sign: exactly one of v, -v (v != 0) is 'negative'"""
+    return v > P // 2
 
 
 def fingerprint(e):
@@ -24,48 +31,68 @@ def fingerprint(e):
     return r
 
 
+def _inv(v):
+    return pow(v, P - 2, P)
+
+
 def _fp(e):
     if z3.is_rational_value(e):
-        return Fraction(e.numerator_as_long(), e.denominator_as_long())
+        d = e.denominator_as_long() % P
+        if d == 0:
+            return None
+        return (e.numerator_as_long() % P) * _inv(d) % P
     if z3.is_int_value(e):
-        return Fraction(e.as_long())
+        return e.as_long() % P
     if z3.is_const(e):
         if z3.is_bool(e):
             return None
+        if e.get_id() in ATOM_FP:
+            return ATOM_FP[e.get_id()][1]
         return _h("c", e.decl().name())
     k = e.decl().kind()
-    ch = [fingerprint(c) for c in e.children()]
     if k == z3.Z3_OP_ITE:
         return None
+    ch = [fingerprint(c) for c in e.children()]
     if any(c is None for c in ch):
         return None
     if k == z3.Z3_OP_ADD:
-        return sum(ch, Fraction(0))
+        return sum(ch) % P
     if k == z3.Z3_OP_SUB:
         r = ch[0]
         for c in ch[1:]:
             r -= c
-        return r
+        return r % P
     if k == z3.Z3_OP_UMINUS:
-        return -ch[0]
+        return (-ch[0]) % P
     if k == z3.Z3_OP_MUL:
-        r = Fraction(1)
+        r = 1
         for c in ch:
-            r *= c
+            r = r * c % P
         return r
     if k == z3.Z3_OP_DIV:
         if ch[1] == 0:
             return None
-        return ch[0] / ch[1]
+        return ch[0] * _inv(ch[1]) % P
     if k == z3.Z3_OP_POWER:
-        if ch[1].denominator == 1 and abs(ch[1]) <= 12 and not (ch[0] == 0 and ch[1] < 0):
-            return ch[0] ** int(ch[1])
+        ex = e.arg(1)
+        if z3.is_rational_value(ex) and ex.denominator_as_long() == 1:
+            n = ex.numerator_as_long()
+            if n >= 0:
+                return pow(ch[0], n, P)
+            if ch[0] == 0:
+                return None
+            return pow(_inv(ch[0]), -n, P)
         return None
     if k == z3.Z3_OP_TO_REAL:
         return ch[0]
-    if k == z3.Z3_OP_UNINTERPRETED and e.decl().name() == "abs":
-        return abs(ch[0])
     if k == z3.Z3_OP_UNINTERPRETED:
-        # limit the size of the rationals fed to the hash
-        return _h("f", e.decl().name(), *[(c.numerator % (1 << 61), c.denominator % (1 << 61)) for c in ch])
+        n = e.decl().name()
+        if n == "abs":
+            return min(ch[0], (P - ch[0]) % P)
+        if n == "sqrt":
+            r = pow(ch[0], (P + 1) // 4, P)
+            if r * r % P != ch[0]:
+                return None  # not a quadratic residue at this point
+            return min(r, P - r)
+        return _h("f", n, *ch)
     return None
